@@ -3,7 +3,8 @@ from oracle import kdebug as K
 
 PROPERTY = 'C01'
 EXHAUSTIVE = True
-STUBS = ['struct.unpack model generated from the format strings the code passes (KD_BUF_FORMAT, <QQQQ)']
+STUBS = ['struct.unpack model generated from the format strings the code passes (KD_BUF_FORMAT, <QQQQ)',
+         'structures "after": SymStream / SymMap for the earlier parse; AST loader (set / dict probes with symbolic keys)']
 ASSUMPTIONS = ['the struct.unpack model is faithful (validated against C struct on every run)']
 OUTSIDE = []
 REQUIRED_LABELS = ['C01/total', 'C01/timestamp', 'C01/data', 'C01/values', 'C01/tid', 'C01/debugid', 'C01/eventid',
@@ -14,7 +15,8 @@ REQUIRED_LABELS = ['C01/total', 'C01/timestamp', 'C01/data', 'C01/values', 'C01/
 
 def setup(symbolic):
     if symbolic:
-        from vxlib.symx import shims
+        from vxlib.symx import shims, loader
+        loader.install()
         shims.install()
 
 
@@ -24,7 +26,10 @@ def bounds(tier):
 
 
 def structures(tier):
-    return [{'kind': 'decode'}, {'kind': 'noninterference'}, {'kind': 'length', 'n': 63}, {'kind': 'length', 'n': 65}]
+    return [{'kind': 'decode'}, {'kind': 'noninterference'}, {'kind': 'length', 'n': 63}, {'kind': 'length', 'n': 65},
+            # the same record after the process has read a dump (thread map with a free tid/pid, one free record): the
+            # decoding of a record does not depend on what was parsed before
+            {'kind': 'decode', 'after': 'v2-dump'}, {'kind': 'noninterference', 'after': 'v2-dump'}]
 
 
 def _decode(ctx, b, tag=''):
@@ -51,6 +56,20 @@ def run(ctx, st):
             ctx.check('C01/wrong-size-rejected', True)
         ctx.reach()
         return
+    if st.get('after') == 'v2-dump':
+        import io
+        from pykdebugparser.pykdebugparser import PyKdebugParser
+        from vxlib.symx.stream import make_stream
+        from vxlib.symx import SymMap
+        pre = ctx.bytes('earlier', 64)
+        ctx.assume(pre[0] != 0)
+        p = PyKdebugParser()
+        if ctx.symbolic:
+            p.threads_pids, p.pids_names = SymMap(), SymMap()
+        try:
+            list(p.kevents(make_stream(K.v2_file([(ctx.int('maptid'), ctx.int('mappid', 32), b'procA')], 3, [pre]))))
+        except Exception as e:      # noqa - what the earlier parse does is C02's subject
+            __import__('vxlib.symx.core', fromlist=['x']).proxy_rejected(e)
     b = ctx.bytes('rec', 64)
     ev = _decode(ctx, b)
     if ev is None:
